@@ -3,7 +3,6 @@ using SP_c3_s = SplineTrajectory::CubicSplineND<3>;
 using TM_c3_s = env::SimTimeMap;
 using SM_c3_s = env::SimSpatialMap<3>;
 OPT_REGISTER_ONE(C12, P_C12, c3_s, SP_c3_s, TM_c3_s, SM_c3_s, true, 3)
-#ifndef STSIM_TSAN
 OPT_REGISTER_ONE(C07, P_C07, c3_s, SP_c3_s, TM_c3_s, SM_c3_s, true, 1)
 OPT_REGISTER_ONE(C08, P_C08, c3_s, SP_c3_s, TM_c3_s, SM_c3_s, true, 1)
 OPT_REGISTER_ONE(C09, P_C09, c3_s, SP_c3_s, TM_c3_s, SM_c3_s, true, 1)
@@ -11,4 +10,3 @@ OPT_REGISTER_ONE(C10, P_C10, c3_s, SP_c3_s, TM_c3_s, SM_c3_s, true, 1)
 OPT_REGISTER_ONE(C15, P_C15, c3_s, SP_c3_s, TM_c3_s, SM_c3_s, true, 3)
 OPT_REGISTER_ONE(C16, P_C16, c3_s, SP_c3_s, TM_c3_s, SM_c3_s, true, 1)
 OPT_REGISTER_ONE(C19, P_C19, c3_s, SP_c3_s, TM_c3_s, SM_c3_s, true, 1)
-#endif
